@@ -27,6 +27,8 @@ type CFile struct {
 	FinalNL bool    `json:"final_nl"`
 	// CRLF: the file has Windows line endings; they are text the command has no business changing
 	CRLF bool `json:"crlf,omitempty"`
+	// MixedEOL > 0: only the first MixedEOL lines end in CRLF (a pasted header), the rest in LF
+	MixedEOL int `json:"mixed_eol,omitempty"`
 }
 
 type CInv struct {
@@ -105,6 +107,15 @@ func (f CFile) content(v, y string) string {
 	if f.CRLF {
 		return strings.ReplaceAll(sb.String(), "\n", "\r\n")
 	}
+	if f.MixedEOL > 0 {
+		parts := strings.SplitAfter(sb.String(), "\n")
+		for i := range parts {
+			if i < f.MixedEOL && strings.HasSuffix(parts[i], "\n") {
+				parts[i] = strings.TrimSuffix(parts[i], "\n") + "\r\n"
+			}
+		}
+		return strings.Join(parts, "")
+	}
 	return sb.String()
 }
 
@@ -152,6 +163,10 @@ var versionPool = []string{"4.1.0", "4.10.2", "v4.1.0", "4.2.0-rc1", "4.2.0-RC1"
 func genC14(t *rapid.T) C14Case {
 	var c C14Case
 	paths := []string{"rules/REQUEST-901-INITIALIZATION.conf", ".devcontainer/modsecurity/extra.conf", "crs-setup.conf.example", "plugins/empty-config.conf", "rules/restricted-files.data.example", "rules/REQUEST-932-APPLICATION-ATTACK-RCE.conf"}
+	if rapid.IntRange(0, 2).Draw(t, "samebasename") == 0 {
+		// the same file name in two directories
+		paths = []string{"crs-setup.conf.example", "util/docker/crs-setup.conf.example", "rules/REQUEST-901-INITIALIZATION.conf", "tests/docker/rules/REQUEST-901-INITIALIZATION.conf", "plugins/empty-config.conf", "x/plugins/empty-config.conf"}
+	}
 	n := rapid.IntRange(1, 5).Draw(t, "nfiles")
 	c.DotRoot = rapid.IntRange(0, 5).Draw(t, "dotroot") == 0
 	c.ViaLink = rapid.SampledFrom([]string{"", "", "", "", "", "link", "link/"}).Draw(t, "vialink")
@@ -160,6 +175,8 @@ func genC14(t *rapid.T) C14Case {
 		c.Files = append(c.Files, genCFile(t, paths[i], strings.Contains(paths[i], "setup") || i == 0))
 		if rapid.IntRange(0, 7).Draw(t, "crlf") == 0 {
 			c.Files[i].CRLF, c.Files[i].FinalNL = true, true
+		} else if rapid.IntRange(0, 7).Draw(t, "mixedeol") == 0 {
+			c.Files[i].MixedEOL, c.Files[i].FinalNL = rapid.IntRange(1, 3).Draw(t, "nmixed"), true
 		}
 	}
 	k := rapid.IntRange(1, 3).Draw(t, "nseq")
@@ -196,6 +213,9 @@ func genC14(t *rapid.T) C14Case {
 	for _, f := range c.Files {
 		if f.CRLF {
 			lab["crlf-file"] = true
+		}
+		if f.MixedEOL > 0 {
+			lab["mixed-line-endings"] = true
 		}
 		if len(f.Lines) > 200 {
 			lab["file-above-8KiB"] = true
